@@ -1,5 +1,724 @@
-"""SIMD kernel rules (sibling agreement, loads, dispatch).  Filled in incrementally."""
+"""SIMD kernel rules: sibling agreement of operation DAGs, vector-load coverage and bounds,
+dispatch soundness, first-call race."""
+import re
+
+from .. import sym
+from ..norm import n, P, C, V, ANY, match, find_all
+from . import common
+
+BODY_KERNELS = {
+    "pseudo32": "compare::dist_body::pseudo_simd_32::sub_distance",
+    "pseudo64": "compare::dist_body::pseudo_simd_64::sub_distance",
+    "sse2": "compare::dist_body::x86_sse2::packed_distance_as_u16x8",
+    "sse4.1": "compare::dist_body::x86_sse4_1::packed_distance_as_u32x4",
+    "avx2": "compare::dist_body::x86_avx2::packed_distance_as_u32x8",
+}
+INTR = re.compile(r"core::arch::x86(?:_64)?::_mm(?:256)?_(\w+)$")
+WRAP = re.compile(r"<core::num::Wrapping<u(32|64)> as core::ops::(\w+)(?:<usize>)?>::(\w+)$")
+
+
+def imm_of(b, bb):
+    """const generic immediate of the intrinsic called in block bb (e.g. _mm_slli_epi32::<1>)."""
+    c = b.blocks[bb]["term"]["callee"]
+    for a in c.get("args", []):
+        if a.get("k") == "val":
+            return a["v"]
+    return None
+
+
+def dag(b, e, depth=0):
+    """Normalised operation tree of a kernel expression (raw sym expr)."""
+    if depth > 200:
+        return ("deep",)
+    k = e[0]
+    if k == "param":
+        return ("in", e[1])
+    if k == "const":
+        return ("k", e[1])
+    if k == "cast":
+        return dag(b, e[3], depth + 1)
+    if k == "field":
+        # Wrapping(x).0
+        return dag(b, e[1], depth + 1)
+    if k == "agg":
+        if e[1].endswith("Wrapping::Wrapping") and len(e[2]) == 1:
+            inner = e[2][0]
+            if inner[0] == "const":
+                return splat_const(inner[1])
+            return dag(b, inner, depth + 1)
+        return ("agg", e[1])
+    if k == "call":
+        bb, path, args = e[1], e[2], e[3]
+        m = WRAP.match(path)
+        if m:
+            op = {"bitand": "and", "bitor": "or", "bitxor": "xor", "add": "add", "sub": "sub", "mul": "mul", "shl": "shl", "shr": "shr"}.get(m.group(3), m.group(3))
+            a = [dag(b, x, depth + 1) for x in args]
+            return mk(op, a, lane=int(m.group(1)))
+        m = INTR.match(path)
+        if m:
+            name = m.group(1)
+            a = [dag(b, x, depth + 1) for x in args]
+            if name in ("and_si128", "and_si256"):
+                return mk("and", a)
+            if name in ("or_si128", "or_si256"):
+                return mk("or", a)
+            if name in ("xor_si128", "xor_si256"):
+                return mk("xor", a)
+            mm = re.match(r"(add|sub|mullo|slli|srli|cmpgt)_epi(\d+)$", name)
+            if mm:
+                op = {"mullo": "mul", "slli": "shl", "srli": "shr"}.get(mm.group(1), mm.group(1))
+                lane = int(mm.group(2))
+                if op in ("shl", "shr"):
+                    a = a + [("k", imm_of(b, bb))]
+                return mk(op, a, lane=lane)
+            mm = re.match(r"set1_epi(\d+)$", name)
+            if mm:
+                lane = int(mm.group(1))
+                v = a[0]
+                if v[0] == "k":
+                    val = v[1] & ((1 << lane) - 1)
+                    full = 0
+                    for i in range(64 // lane):
+                        full |= val << (i * lane)
+                    return splat_const(full, 64)
+                return ("splat", lane, v)
+            mm = re.match(r"(shuffle_epi32|shuffle_epi8|packs_epi16|movemask_epi8|extract_epi32|cvtsi128_si32|undefined_si128|loadu_si128|loadu_si256|set_epi8)$", name)
+            if mm:
+                extra = [("k", imm_of(b, bb))] if imm_of(b, bb) is not None else []
+                return (mm.group(1),) + tuple(a) + tuple(extra)
+            return ("intr:" + name,) + tuple(a)
+        if path.endswith(("::wrapping_add", "::wrapping_shr", "::wrapping_mul")):
+            a = [dag(b, x, depth + 1) for x in args]
+            return mk(path.rsplit("wrapping_", 1)[-1], a)
+        return ("call:" + path,) + tuple(dag(b, x, depth + 1) for x in args)
+    if k == "bin":
+        op = {"BitAnd": "and", "BitOr": "or", "BitXor": "xor", "Add": "add", "Sub": "sub", "Mul": "mul", "Shl": "shl", "Shr": "shr"}.get(e[1].replace("WithOverflow", ""), e[1])
+        return mk(op, [dag(b, e[2], depth + 1), dag(b, e[3], depth + 1)])
+    if k == "load":
+        return ("load", str(e[1])[:60])
+    return ("?", k)
+
+
+def splat_const(v, bits=None):
+    """Constants are compared as byte patterns: a value whose bytes are all equal is ('splat8', byte)."""
+    bs = []
+    x = v
+    nb = (bits // 8) if bits else max(1, (v.bit_length() + 7) // 8)
+    for i in range(nb):
+        bs.append(x & 0xFF)
+        x >>= 8
+    if len(set(bs)) == 1:
+        return ("splat8", bs[0])
+    if nb >= 4 and len(set(tuple(bs[i:i + 4]) for i in range(0, nb, 4))) == 1:
+        return ("splat32", bs[0] | bs[1] << 8 | bs[2] << 16 | bs[3] << 24)
+    return ("k", v)
+
+
+COMM = {"and", "or", "xor", "add", "mul"}
+
+
+def mk(op, a, lane=None):
+    """lane widths are erased for and/or/xor/add/sub/shift (bit-sliced code is lane agnostic where no
+    carry crosses a lane); they are kept for mul and for the 16-bit tail ops."""
+    a = list(a)
+    # x*3 idioms
+    if op in ("add", "or") and len(a) == 2:
+        for x, y in ((a[0], a[1]), (a[1], a[0])):
+            if x[0] == "shl" and x[1] == y and x[2] == ("k", 1):
+                return ("mul3", y)
+    if op in COMM:
+        a = sorted(a, key=repr)
+    if op == "mul" or (lane == 16):
+        return (op + str(lane or ""),) + tuple(a)
+    return (op,) + tuple(a)
+
+
+TAILS = {
+    # family: (pattern builder over S8) -- one line of reason each
+    "pseudo32": lambda s: ("shr", ("mul32", ("splat8", 1), s), ("k", 24)),  # horizontal byte sum by multiply, 32-bit lanes
+    "sse4.1": lambda s: ("shr", ("mul32", ("splat8", 1), s), ("k", 24)),   # same, _mm_mullo_epi32 / _mm_srli_epi32::<24>
+    "avx2": lambda s: ("shr", ("mul32", ("splat8", 1), s), ("k", 24)),     # same on 256-bit vectors
+    "pseudo64": lambda s: ("shr", ("mul64", ("splat8", 1), s), ("k", 56)),  # 64-bit lanes: multiply by 0x0101..01, shift 56
+    "sse2": lambda s: ("add16", ("shr16", s, ("k", 8)), ("shr16", ("shl16", s, ("k", 8)), ("k", 8))),  # no 32-bit mullo in SSE2: add high and low bytes of each 16-bit lane
+}
+
+
+def split_tail(fam, d):
+    """Return S8 such that d == TAILS[fam](S8), else None."""
+    pat = TAILS[fam](V("s8"))
+    m = match(_sortcomm(pat), d)
+    return m["s8"] if m else None
+
+
+def _sortcomm(p):
+    return p  # patterns above are written in the canonical operand order produced by mk()
+
+
+def kernel_dag(F, path):
+    b = F.fn(path)
+    if b is None:
+        return None, None
+    ps = [p for p in sym.Sym(b).paths() if p.end == "return"]
+    if len(ps) != 1:
+        return b, None
+    return b, dag(b, ps[0].ret)
 
 
 def body_kernels(ctx, r, F):
-    pass
+    """R-02.5: sibling agreement of the body-distance kernels compiled in this configuration."""
+    got = {}
+    for fam, path in BODY_KERNELS.items():
+        b, d = kernel_dag(F, path)
+        if b is None:
+            continue
+        ctx.instance(r)
+        if d is None:
+            ctx.missing(r, "straight-line body of %s" % path, cfg=F.key)
+            continue
+        s8 = None
+        # canonicalise the multiply operand order for the pattern
+        s8 = split_tail(fam, d) or split_tail(fam, _swap_mul(d))
+        ctx.ob(r, (path.rsplit("::", 2)[-2] + "::" + path.rsplit("::", 1)[-1], "tail-family"), s8 is not None,
+               "horizontal-sum tail of %s does not match its family's recorded shape" % path, cfg=F.key, where=b.where())
+        if s8 is not None:
+            got[fam] = (b, s8)
+    if len(got) >= 2:
+        ref_fam = sorted(got)[0]
+        ref = got[ref_fam][1]
+        for fam, (b, s8) in sorted(got.items()):
+            if fam == ref_fam:
+                continue
+            same = s8 == ref
+            ctx.ob(r, (fam, "core-dag==" + ref_fam), same,
+                   "the bit-sliced core of the %s kernel differs from the %s kernel: first difference %s" % (fam, ref_fam, first_diff(s8, ref)),
+                   cfg=F.key, where=b.where())
+    if "simd" in F.features or "opt-simd-body-comparison" in F.features:
+        need = {"pseudo32", "pseudo64"} | ({"sse2", "sse4.1", "avx2"} if "detect-features" in F.features else set())
+        miss = need - set(got)
+        if miss:
+            ctx.missing(r, "body-distance kernels %s" % sorted(miss), cfg=F.key)
+    outer_loads(ctx, r, F)
+
+
+def _swap_mul(d):
+    if not isinstance(d, tuple):
+        return d
+    d = tuple(_swap_mul(x) for x in d)
+    if d and isinstance(d[0], str) and d[0].startswith("mul") and len(d) == 3:
+        a, b2 = sorted([d[1], d[2]], key=lambda x: (x[0] != "splat8", repr(x)))
+        return (d[0], a, b2)
+    return d
+
+
+def first_diff(a, b, path="root"):
+    if a == b:
+        return None
+    if not isinstance(a, tuple) or not isinstance(b, tuple) or len(a) != len(b) or a[:1] != b[:1]:
+        return "%s: %s vs %s" % (path, str(a)[:80], str(b)[:80])
+    for i, (x, y) in enumerate(zip(a, b)):
+        if x != y:
+            return first_diff(x, y, path + "/" + str(a[0]) + "." + str(i))
+    return None
+
+
+# ---------------------------------------------------------------- loads / outer functions
+
+OUTER = {
+    # function: (kernel family, body bytes, vector bytes)
+    "compare::dist_body::x86_sse2::distance_32": ("sse2", 32, 16),
+    "compare::dist_body::x86_sse2::distance_64": ("sse2", 64, 16),
+    "compare::dist_body::x86_sse4_1::distance_32": ("sse4.1", 32, 16),
+    "compare::dist_body::x86_sse4_1::distance_64": ("sse4.1", 64, 16),
+    "compare::dist_body::x86_avx2::distance_32": ("avx2", 32, 32),
+    "compare::dist_body::x86_avx2::distance_64": ("avx2", 64, 32),
+}
+
+
+def load_offsets(b):
+    """[(param index, element offset or ('loop', lo, hi), vector bytes)] for every unaligned vector load."""
+    S = sym.Sym(b)
+    paths = S.paths()
+    hdrs = {p.blocks[-1] for p in paths if p.end == "loop"}
+    allp = list(paths)  # first-iteration paths from the entry: pointer bases are known there
+    out = set()
+    bad = []
+    for p in allp:
+        # loop variable ranges on this path: cond Lt(i, K) from Range::next desugaring is not visible; use
+        # the iterator: for i in 0..K  =>  next(&mut Range{0,K})
+        for (bb, path, args, c) in p.calls:
+            if not path.endswith(("_mm_loadu_si128", "_mm256_loadu_si256")):
+                continue
+            W = 16 if path.endswith("si128") else 32
+            e = args[0]
+            off = C(0)
+            while True:
+                if e[0] == "cast":
+                    e = e[3]
+                    continue
+                if e[0] == "call" and e[2].endswith("::add") and len(e[3]) == 2:
+                    off = e[3][1]
+                    e = e[3][0]
+                    continue
+                break
+            base = None
+            if e[0] == "rawptr" or e[0] == "ref":
+                tgt = e[2]
+                if tgt[0] == "deref" and tgt[1][0] == "param":
+                    base = tgt[1][1]
+            elif e[0] == "param":
+                base = e[1]
+            elif e[0] == "call" and e[2].endswith("::as_ptr"):
+                base = ("slice", n(e[3][0]))
+            o = n(off)
+            if o[0] == "const":
+                out.add((base if not isinstance(base, tuple) else "slice", o[1], W))
+            else:
+                # loop index: payload of Range<usize>::next
+                out.add((base if not isinstance(base, tuple) else "slice", ("loop", sym.fmt(o)[:60]), W))
+            if base is None:
+                bad.append(sym.fmt(n(args[0]))[:80])
+    return out, bad, allp
+
+
+def loop_range(b):
+    """Constant (lo, hi) of `for i in lo..hi` loops in b (from the Range aggregate fed to into_iter)."""
+    out = []
+    for p in sym.Sym(b).paths():
+        for (bb, path, args, c) in p.calls:
+            if path.endswith("::into_iter") and args:
+                a = n(args[0])
+                m = match(("agg", "adt:core::ops::Range::Range", (("const", V("lo")), ("const", V("hi")))), a)
+                if m:
+                    out.append((m["lo"], m["hi"]))
+    return sorted(set(out))
+
+
+def outer_loads(ctx, r, F):
+    for path, (fam, size, W) in OUTER.items():
+        b = F.fn(path)
+        if b is None:
+            continue
+        ctx.instance(r)
+        loads, bad, allp = load_offsets(b)
+        rngs = loop_range(b)
+        per = {1: set(), 2: set()}
+        ok = not bad
+        for (base, off, w) in loads:
+            if base not in (1, 2) or w != W:
+                ok = False
+                continue
+            if isinstance(off, tuple):
+                if len(rngs) != 1:
+                    ok = False
+                    continue
+                for i in range(rngs[0][0], rngs[0][1]):
+                    per[base].add(i)
+            else:
+                per[base].add(off)
+        want = set(range(size // W))
+        cover = per[1] == want and per[2] == want
+        ctx.ob(r, (path.rsplit("::", 2)[-2] + "::" + path.rsplit("::", 1)[-1], "loads-cover-body"), ok and cover,
+               "%s loads vector chunks %s / %s of its two %d-byte bodies (vector width %d, loop ranges %s); reference every chunk %s exactly once from each" % (
+                   path, sorted(per[1]), sorted(per[2]), size, W, rngs, sorted(want)), cfg=F.key, where=b.where())
+        # kernel called on pairs (x_i, y_i) of the same chunk, and every result is accumulated
+        kern = BODY_KERNELS[fam]
+        pairs_ok = True
+        ncalls = 0
+        for p in allp:
+            for (bb, cp, args, c) in p.calls:
+                if cp == kern:
+                    ncalls += 1
+                    a = [str(n(x)) for x in args]
+                    # same offset expression on both sides, param 1 first
+                    s1 = re.sub(r"\('param', 1\)", "P", a[0])
+                    s2 = re.sub(r"\('param', 2\)", "P", a[1])
+                    if s1 != s2:
+                        pairs_ok = False
+        ctx.ob(r, (path.rsplit("::", 2)[-2] + "::" + path.rsplit("::", 1)[-1], "kernel-on-matching-chunks"), pairs_ok and ncalls > 0,
+               "%s does not feed its kernel with (body1 chunk i, body2 chunk i) pairs" % path, cfg=F.key, where=b.where())
+    # pseudo-SIMD outer functions: chunks_exact(k) zipped, k = lane bytes
+    for path, k in (("compare::dist_body::pseudo_simd_32::distance_12", 4), ("compare::dist_body::pseudo_simd_32::distance_32", 4),
+                    ("compare::dist_body::pseudo_simd_32::distance_64", 4), ("compare::dist_body::pseudo_simd_64::distance_32", 8),
+                    ("compare::dist_body::pseudo_simd_64::distance_64", 8)):
+        b = F.fn(path)
+        if b is None:
+            continue
+        ctx.instance(r)
+        S = sym.Sym(b)
+        pre = None
+        for p in S.paths():
+            if p.end == "loop":
+                pre = p
+        ok = False
+        if pre is not None:
+            ce = [(c[1].rsplit("::", 1)[-1], [n(a) for a in c[2]]) for c in pre.calls]
+            chunks = [a for nm, a in ce if nm == "chunks_exact"]
+            zips = [a for nm, a in ce if nm == "zip"]
+            ok = len(chunks) == 2 and all(a[1] == C(k) for a in chunks) and len(zips) == 1 and \
+                {str(chunks[0][0]), str(chunks[1][0])} == {str(("call", "core::array::<impl [T; N]>::as_slice", (P(1),))), str(("call", "core::array::<impl [T; N]>::as_slice", (P(2),)))}
+        ctx.ob(r, (path.rsplit("::", 2)[-2] + "::" + path.rsplit("::", 1)[-1], "chunks-cover-body"), ok,
+               "%s is not body1.chunks_exact(%d).zip(body2.chunks_exact(%d))" % (path, k, k), cfg=F.key, where=b.where())
+    b = F.fn("compare::dist_body::pseudo_simd_64::distance_12")
+    if b is not None:
+        ctx.instance(r)
+        ps = [p for p in sym.Sym(b).paths() if p.end == "return"]
+        ok = False
+        if len(ps) == 1:
+            wins = []
+            for (bb, cp, args, c) in ps[0].calls:
+                if cp.endswith("::index") and len(args) == 2:
+                    a = [n(x) for x in args]
+                    m = match(("agg", "adt:core::ops::Range::Range", (("const", V("lo")), ("const", V("hi")))), a[1])
+                    if m and a[0] in (P(1), P(2)):
+                        wins.append((a[0][1], m["lo"], m["hi"]))
+            ok = sorted(wins) == [(1, 0, 8), (1, 8, 12), (2, 0, 8), (2, 8, 12)]
+        ctx.ob(r, ("pseudo_simd_64::distance_12", "windows-cover-body"), ok, "pseudo_simd_64::distance_12 does not read [0,8) and [8,12) of both bodies", cfg=F.key, where=b.where())
+
+
+# ---------------------------------------------------------------- aggregation kernels
+
+AGG = {
+    "sse2": ("generate::bucket_aggregation::x86_sse2::sub_aggregation", 4),
+    "ssse3": ("generate::bucket_aggregation::x86_ssse3::sub_aggregation", 4),
+    "avx2": ("generate::bucket_aggregation::x86_avx2::sub_aggregation", 8),
+}
+
+
+def agg_kernels(ctx, r, F):
+    """Comparison core of the aggregation backends: biased unsigned compare against the three thresholds,
+    high bit from q2, low bit from q1^q2^q3."""
+    seen = {}
+    for fam, (path, lanes) in AGG.items():
+        b = F.fn(path)
+        if b is None:
+            continue
+        ctx.instance(r)
+        ps = [p for p in sym.Sym(b).paths() if p.end == "return"]
+        if len(ps) != 1:
+            ctx.missing(r, "single returning path of %s" % path, cfg=F.key)
+            continue
+        p = ps[0]
+        d = dag(b, p.ret)
+        cmps = find_all(d, lambda x: x[0] == "cmpgt")
+        cmps = {repr(c): c for c in cmps}.values()
+        BIAS = ("splat32", 0x80000000)
+        info = {}
+        ok = True
+        msgs = []
+        for c in cmps:
+            lhs, rhs = c[1], c[2]
+            # data ^ bias on the left
+            okl = lhs[0] == "xor" and BIAS in lhs[1:] and any(x[0] == "loadu_si128" or x[0] == "loadu_si256" for x in lhs[1:])
+            m = match(("splat", 32, ("xor", V("a"), V("b"))), rhs)
+            q = None
+            if m:
+                for x, y in ((m["a"], m["b"]), (m["b"], m["a"])):
+                    if x == ("k", 0x80000000) and y[0] == "in":
+                        q = y[1]
+            if not okl or q is None:
+                ok = False
+                msgs.append("compare %s" % str(c)[:100])
+            else:
+                info[q] = c
+        if sorted(info) != [2, 3, 4]:
+            ok = False
+            msgs.append("thresholds compared: params %s; reference q1,q2,q3 = params 2,3,4" % sorted(info))
+        else:
+            c1, c2, c3 = info[2], info[3], info[4]
+            x3 = ("xor",) + tuple(sorted([("xor",) + tuple(sorted([c1, c2], key=repr)), c3], key=repr))
+            # low bit source = xor of the three masks (any association), high bit source = c2 alone
+            lows = find_all(d, lambda x: x[0] == "xor" and _flat_xor(x) == sorted(map(repr, [c1, c2, c3])))
+            if not lows:
+                ok = False
+                msgs.append("no xor of the three compare masks")
+            his = find_all(d, lambda x: x[0] in ("packs_epi16", "shuffle_epi8") and x[1] == c2)
+            los = find_all(d, lambda x: x[0] in ("packs_epi16", "shuffle_epi8") and x[1][0] == "xor" and _flat_xor(x[1]) == sorted(map(repr, [c1, c2, c3])))
+            if len({repr(h) for h in his}) != 1 or len({repr(l) for l in los}) != 1:
+                ok = False
+                msgs.append("bit packing: high-bit sources %d, low-bit sources %d" % (len(his), len(los)))
+            else:
+                seen[fam] = (his[0], los[0], d)
+        ctx.ob(r, (fam + "::sub_aggregation", "comparison-core"), ok,
+               "%s: %s; reference cmpgt(data^0x80000000, splat(q^0x80000000)) for q1,q2,q3, dibit = 2*[v>q2] + ([v>q1]^[v>q2]^[v>q3])" % (path, "; ".join(msgs[:2])),
+               cfg=F.key, where=b.where())
+        # chunk assertion and load width
+        asserts = [c for c in sym.Sym(b).paths() if c.end == "diverge"]
+        gate = None
+        for q in sym.Sym(b).paths():
+            for (bb, dcond, taken, vals) in q.conds:
+                e = n(dcond)
+                m = match(("bin", "Le", ("const", V("k")), ("call", "core::slice::<impl [T]>::len", (P(1),))), e)
+                if m:
+                    gate = m["k"]
+        loads, bad, _ = load_offsets(b)
+        okl = gate == lanes and loads == {("slice", 0, lanes * 4)} and not bad
+        ctx.ob(r, (fam + "::sub_aggregation", "load-inside-asserted-chunk"), okl,
+               "%s asserts len >= %s and loads %s; reference assert len >= %d and one %d-byte load at offset 0" % (path, gate, sorted(map(str, loads)), lanes, lanes * 4),
+               cfg=F.key, where=b.where())
+    # shuffle masks: ssse3 and avx2 equal up to duplication across 128-bit halves; sse2 uses packs + movemask & 0xaa/0x55
+    if "ssse3" in seen and "avx2" in seen:
+        def mask_bytes(node):
+            m = node[2]
+            if m[0] == "set_epi8":
+                return [x[1] & 0xFF if x[0] == "k" else None for x in m[1:]]
+            return None
+        for which, i in (("high", 0), ("low", 1)):
+            a = mask_bytes(seen["ssse3"][i])
+            b2 = mask_bytes(seen["avx2"][i])
+            ok = a is not None and b2 is not None and len(a) == 16 and len(b2) == 32 and b2[:16] == a and b2[16:] == a
+            ctx.ob(r, ("ssse3/avx2", "shuffle-mask-" + which), ok, "%s-bit shuffle masks differ between SSSE3 (%s) and AVX2 (%s)" % (which, a, b2), cfg=F.key)
+    if "sse2" in seen:
+        d = seen["sse2"][2]
+        ands = find_all(d, lambda x: x[0] == "and" and any(y in (("k", 0xAA), ("k", 0x55)) for y in x[1:]))
+        ks = sorted({y[1] for x in ands for y in x[1:] if y[0] == "k"})
+        ctx.ob(r, ("sse2::sub_aggregation", "movemask-masks"), ks == [0x55, 0xAA], "SSE2 movemask masks %s; reference 0xaa (high bits) / 0x55 (low bits)" % [hex(k) for k in ks], cfg=F.key)
+    outer_agg(ctx, r, F)
+
+
+def _flat_xor(x):
+    out = []
+
+    def rec(y):
+        if y[0] == "xor":
+            for z in y[1:]:
+                rec(z)
+        else:
+            out.append(repr(y))
+
+    rec(x)
+    return sorted(out)
+
+
+def outer_agg(ctx, r, F):
+    """All backends write output bytes in reverse order over chunks_exact(4 | 8) of the buckets."""
+    for mod, chunk, outchunk in (("x86_sse2", 4, None), ("x86_ssse3", 4, None), ("x86_avx2", 8, 2)):
+        for nm in ("aggregate_48", "aggregate_128", "aggregate_256"):
+            b = F.fn("generate::bucket_aggregation::%s::%s" % (mod, nm))
+            if b is None:
+                continue
+            ctx.instance(r)
+            pre = None
+            S = sym.Sym(b)
+            for p in S.paths():
+                if p.end == "loop":
+                    pre = p
+            ok = False
+            desc = None
+            if pre is not None:
+                names = [c[1].rsplit("::", 1)[-1] for c in pre.calls]
+                sig = [x for x in names if x in ("iter_mut", "chunks_mut", "rev", "as_slice", "chunks_exact", "zip")]
+                want = (["iter_mut", "rev", "as_slice", "chunks_exact", "zip"] if outchunk is None else ["chunks_mut", "rev", "as_slice", "chunks_exact", "zip"])
+                ce = [[n(a) for a in c[2]] for c in pre.calls if c[1].endswith("::chunks_exact")]
+                cm = [[n(a) for a in c[2]] for c in pre.calls if c[1].endswith("::chunks_mut")]
+                ok = sig == want and len(ce) == 1 and ce[0][1] == C(chunk) and (outchunk is None or (len(cm) == 1 and cm[0][1] == C(outchunk)))
+                desc = "%s chunk %s" % (sig, ce[0][1] if ce else None)
+                # kernel receives (chunk, q1, q2, q3) in order
+                ks = [c for c in pre.calls if c[1].endswith("::sub_aggregation")]
+                if len(ks) != 1 or [n(a) for a in ks[0][2]][1:] != [P(3), P(4), P(5)]:
+                    ok = False
+                    desc += "; kernel args %s" % ([sym.fmt(n(a)) for a in ks[0][2]] if ks else None)
+                if outchunk == 2 and ks:
+                    # (out[0], out[1]) = (hi half, lo half) of the kernel's pair
+                    st = [(n(pl), n(v)) for _, pl, v in pre.stores]
+                    idxs = sorted((pl[2], v[2]) for pl, v in st if pl[0] == "index" and v[0] == "field")
+                    if idxs != [(C(0), 0), (C(1), 1)]:
+                        ok = False
+                        desc += "; pair stored as %s" % idxs
+            ctx.ob(r, ("%s::%s" % (mod, nm), "orientation"), ok, "%s::%s iterates %s; reference out reversed x buckets.chunks_exact(%d)" % (mod, nm, desc, chunk), cfg=F.key, where=b.where())
+
+
+# ---------------------------------------------------------------- dispatch
+
+DISPATCHERS = {
+    "compare::dist_body::distance_32": ("compare::dist_body::DISPATCH_DISTANCE_32", "distance_32"),
+    "compare::dist_body::distance_64": ("compare::dist_body::DISPATCH_DISTANCE_64", "distance_64"),
+    "generate::bucket_aggregation::aggregate_48": ("generate::bucket_aggregation::DISPATCH_AGGREGATE_48", "aggregate_48"),
+    "generate::bucket_aggregation::aggregate_128": ("generate::bucket_aggregation::DISPATCH_AGGREGATE_128", "aggregate_128"),
+    "generate::bucket_aggregation::aggregate_256": ("generate::bucket_aggregation::DISPATCH_AGGREGATE_256", "aggregate_256"),
+}
+
+
+def implied_features(F):
+    """feature -> set of features it implies, read from the compiler's implied lists."""
+    imp = {}
+    for b in F.bodies:
+        tfs = b.d.get("target_features") or []
+        en = [t["name"] for t in tfs if t["kind"] == "Enabled"]
+        al = {t["name"] for t in tfs}
+        for e in en:
+            if len(en) == 1:
+                imp.setdefault(e, set()).update(al)
+    return imp
+
+
+def required_features(F, G, path, memo=None, depth=0):
+    """Union of target features needed by `path` and everything it calls (local fns + intrinsics)."""
+    memo = memo if memo is not None else {}
+    if path in memo:
+        return memo[path]
+    memo[path] = set()
+    b = F.fn(path)
+    need = set()
+    if b is None or depth > 12:
+        return need
+    need |= {t["name"] for t in (b.d.get("target_features") or [])}
+    for _, t in b.calls():
+        c = t["callee"]
+        need |= set(c.get("target_features") or [])
+        res = c.get("resolved") or {}
+        if res.get("krate") == "tlsh":
+            need |= required_features(F, G, res["path"], memo, depth + 1)
+    memo[path] = need
+    return need
+
+
+def dispatch(ctx, r, F):
+    """R-07.5 / R-17.3: every backend call happens under a detection (or static feature set) that implies the
+    features of the callee and of everything it calls."""
+    imp = implied_features(F)
+    static = set(F.d["target_features"])
+    runtime = "detect-features" in F.features and "simd-per-arch" in F.features
+    for dpath, (static_name, fname) in DISPATCHERS.items():
+        d = F.fn(dpath)
+        if d is None:
+            continue
+        ctx.instance(r)
+        if runtime:
+            # the get_or_init initialiser closure
+            inits = [b for b in F.bodies if b.kind == "Closure" and b.d.get("parent") == dpath]
+            if len(inits) != 1:
+                ctx.missing(r, "initialiser closure of %s" % dpath, cfg=F.key)
+                continue
+            ini = inits[0]
+            S = sym.Sym(ini)
+            ok = True
+            msgs = []
+            nsel = 0
+            for p in S.paths():
+                if p.end != "return":
+                    continue
+                detected = set()
+                for (bb, dcond, taken, vals) in p.conds:
+                    e = n(dcond)
+                    if e[0] == "call" and "__is_feature_detected::" in e[1]:
+                        feat = e[1].rsplit("::", 1)[-1].replace("_", ".") if e[1].rsplit("::", 1)[-1] in ("sse4_1", "sse4_2") else e[1].rsplit("::", 1)[-1]
+                        truth = (taken == "otherwise") if vals == [0] else bool(taken)
+                        if truth:
+                            detected.add(feat)
+                ret = n(p.ret)
+                cl = find_all(ret, lambda x: x[0] == "agg" and x[1].startswith("closure:"))
+                fns = find_all(ret, lambda x: x[0] == "fn")
+                have = set(static)
+                for f in detected:
+                    have |= imp.get(f, {f})
+                if cl:
+                    nsel += 1
+                    cb = F.fn(cl[0][1][len("closure:"):])
+                    if cb is None:
+                        ok = False
+                        msgs.append("closure body missing")
+                        continue
+                    calls = [t for _, t in cb.calls()]
+                    if len(calls) != 1:
+                        ok = False
+                        msgs.append("dispatch closure makes %d calls" % len(calls))
+                        continue
+                    tgt = (calls[0]["callee"].get("resolved") or {}).get("path") or calls[0]["callee"].get("path")
+                    if not tgt.endswith("::" + fname):
+                        ok = False
+                        msgs.append("dispatcher %s selects %s" % (fname, tgt))
+                    need = required_features(F, None, tgt)
+                    if not need <= have:
+                        ok = False
+                        msgs.append("%s needs %s but the path only established %s" % (tgt.rsplit("::", 2)[-2], sorted(need - have), sorted(detected)))
+                    # arguments forwarded in order
+                    args = [a.get("copy") or a.get("move") for a in calls[0]["args"]]
+                    if cb.mir["arg_count"] - 1 != len(args):
+                        ok = False
+                        msgs.append("closure forwards %d of %d arguments" % (len(args), cb.mir["arg_count"] - 1))
+                elif fns:
+                    nsel += 1
+                    tgt = fns[0][1]
+                    need = required_features(F, None, tgt)
+                    if not tgt.endswith("::" + fname) or not need <= have:
+                        ok = False
+                        msgs.append("fallback %s (needs %s)" % (tgt, sorted(need - have)))
+                else:
+                    ok = False
+                    msgs.append("initialiser path returns %s" % sym.fmt(ret)[:80])
+            ctx.ob(r, (dpath.rsplit("::", 1)[-1], "runtime-ladder"), ok and nsel >= 2, "; ".join(sorted(set(msgs))[:3]) or "selected %d" % nsel, cfg=F.key, where=d.where(), detail={"arms": nsel})
+            # dispatcher body: static.get_or_init(closure)(args in order)
+            ps = [p for p in sym.Sym(d).paths() if p.end == "return"]
+            okd = False
+            for p in ps:
+                gi = [c for c in p.calls if c[1].endswith("OnceLock::<T>::get_or_init")]
+                ind = [c for c in p.calls if c[1] == "<indirect>" or c[1].endswith("Fn::call")]
+                if len(gi) == 1:
+                    a = [n(x) for x in gi[0][2]]
+                    okd = a[0] == ("ref", ("table", static_name)) or bool(find_all(a[0], lambda x: x == ("table", static_name)))
+            ctx.ob(r, (dpath.rsplit("::", 1)[-1], "uses-own-static"), okd, "%s does not call %s.get_or_init" % (dpath, static_name), cfg=F.key, where=d.where())
+        else:
+            # static ladder: direct call to one backend whose requirements are met by the static feature set
+            ps = [p for p in sym.Sym(d).paths() if p.end == "return"]
+            ok = bool(ps)
+            msgs = []
+            for p in ps:
+                backs = [c for c in p.calls if c[1].startswith(dpath.rsplit("::", 1)[0] + "::") and c[1].endswith("::" + fname)]
+                if len(backs) != 1:
+                    ok = False
+                    msgs.append("calls %s" % [c[1] for c in p.calls if not c[1].startswith("core::")])
+                    continue
+                need = required_features(F, None, backs[0][1])
+                have = set(static)
+                for f in list(static):
+                    have |= imp.get(f, {f})
+                if not need <= have:
+                    ok = False
+                    msgs.append("%s needs %s, statically enabled %s" % (backs[0][1], sorted(need - have), sorted(static)))
+            ctx.ob(r, (dpath.rsplit("::", 1)[-1], "static-ladder"), ok, "; ".join(msgs[:2]), cfg=F.key, where=d.where())
+    # who may touch the dispatch statics
+    if runtime:
+        for dpath, (static_name, fname) in DISPATCHERS.items():
+            users = set()
+            for b in F.bodies:
+                if not b.mir:
+                    continue
+                txt = None
+                for blk in b.blocks:
+                    for s in blk["stmts"]:
+                        for k in ("op", "a", "b"):
+                            c = (s.get(k) or {}).get("const") if isinstance(s.get(k), dict) else None
+                            if c and c.get("k") == "static_ref" and c.get("path") == static_name:
+                                users.add(b.path)
+                    t = blk["term"]
+                    if t["t"] == "call":
+                        for a in t["args"]:
+                            c = a.get("const")
+                            if c and c.get("k") == "static_ref" and c.get("path") == static_name:
+                                users.add(b.path)
+            ctx.instance(r)
+            ctx.ob(r, (static_name.rsplit("::", 1)[-1], "only-its-dispatcher"), users == {dpath},
+                   "%s is referenced by %s; reference only %s" % (static_name, sorted(users), dpath), cfg=F.key)
+
+
+def race(ctx, r, F):
+    """R-07.6: initialiser closures capture nothing and read no static; they return capture-less closures / fn items."""
+    n_init = 0
+    for dpath in DISPATCHERS:
+        for b in F.bodies:
+            if b.kind != "Closure" or not (b.d.get("parent") or "").startswith(dpath):
+                continue
+            n_init += 1
+            ctx.instance(r)
+            up = b.d.get("upvars") or []
+            reads_static = False
+            for blk in b.blocks:
+                for s in blk["stmts"]:
+                    for k in ("op", "a", "b"):
+                        c = (s.get(k) or {}).get("const") if isinstance(s.get(k), dict) else None
+                        if c and c.get("k") == "static_ref":
+                            reads_static = True
+            ctx.ob(r, (b.path.replace(dpath, dpath.rsplit("::", 1)[-1]), "captureless-and-static-free"), not up and not reads_static,
+                   "dispatch closure %s captures %d values / reads a static: %s" % (b.path, len(up), reads_static), cfg=F.key, where=b.where())
+    if "detect-features" in F.features and "simd-per-arch" in F.features:
+        ctx.floor(r, 20, "dispatch initialiser and backend closures")
